@@ -1,9 +1,14 @@
 """child process for C13 hook traces: runs localmaxlabel from the IMAGED11_VERIF (hooks) build on the images of an
 npz file, one trace file per (image, thread count); the thread counts of image k are in `threads_k`.
 The requested thread count is read back (exit code 3 when it did not take effect).
+A thread count 0 means "do not call cimaged11_omp_set_num_threads": the team size comes from the OpenMP environment this
+child was started in (all such runs are made first, before the setter is ever called).  How many threads the runtime
+really DELIVERS is seen by the parent from the per-thread logs (one `T` line per thread that ran), never from here.
 usage: c13_hooks_child.py <cases.npz> <outdir>"""
 import sys, os
 import numpy as np
+
+LAB_FILLS = [-7, 999999, 0, 12345]
 
 
 def main():
@@ -11,22 +16,33 @@ def main():
     outdir = sys.argv[2]
     from ImageD11 import cImageD11
     names = cases["names"]
-    for k, name in enumerate(names):
+    st = {"n": 0}
+
+    def run(k, nt):
         img = cases["img_%d" % k]
+        path = os.path.join(outdir, "trace_%d_%d.txt" % (k, int(nt)))
+        os.environ["IMAGED11_VERIF_TRACE"] = path
+        lab = np.full(img.shape, LAB_FILLS[st["n"] % len(LAB_FILLS)], np.int32)
+        st["n"] += 1
+        wrk = np.full(img.shape, 77, np.uint8)
+        cImageD11.localmaxlabel(img, lab, wrk)
+        del os.environ["IMAGED11_VERIF_TRACE"]
+        np.save(os.path.join(outdir, "labels_%d_%d.npy" % (k, int(nt))), lab)
+
+    for k, name in enumerate(names):
+        if 0 in [int(x) for x in cases["threads_%d" % k]]:
+            run(k, 0)
+    for k, name in enumerate(names):
         for nt in cases["threads_%d" % k]:
+            if int(nt) == 0:
+                continue
             cImageD11.cimaged11_omp_set_num_threads(int(nt))
             got = cImageD11.cimaged11_omp_get_max_threads()
             if got != int(nt):
                 sys.stderr.write("cimaged11_omp_set_num_threads(%d) did not take effect: cimaged11_omp_get_max_threads() = %d\n"
                                  % (int(nt), got))
                 sys.exit(3)
-            path = os.path.join(outdir, "trace_%d_%d.txt" % (k, int(nt)))
-            os.environ["IMAGED11_VERIF_TRACE"] = path
-            lab = np.full(img.shape, -7, np.int32)
-            wrk = np.full(img.shape, 77, np.uint8)
-            n = cImageD11.localmaxlabel(img, lab, wrk)
-            del os.environ["IMAGED11_VERIF_TRACE"]
-            np.save(os.path.join(outdir, "labels_%d_%d.npy" % (k, int(nt))), lab)
+            run(k, nt)
 
 
 if __name__ == "__main__":
